@@ -139,7 +139,13 @@ theorem driver_step_g {file : Bytes} {crs ncols : Nat} {im : List Nat} {hrow : L
       apply hgood c hc
       rw [stageRows_col, List.nil_append, htakeA] at hcell
       exact column_part_subset rows (e - 1) a c hcell
-    rw [hinv.imps, hwr, importAll_hom hhom (D := doneCols rows (e - 1)) hres.shape hres.cols hres.caps hlenE im st.imOk hsub]
+    have hdone : ∀ c ∈ im, ∀ cell ∈ doneCols rows (e - 1) c, good c cell := by
+      intro c hc cell hcell
+      apply hgood c hc
+      have := column_part_subset rows 0 (e - 1) c (cell := cell) (by simpa [doneCols] using hcell)
+      exact this
+    rw [hinv.imps, hwr,
+      importAll_hom hhom (D := doneCols rows (e - 1)) hres.shape hres.cols hres.caps hlenE im st.imOk hdone hsub]
     congr 1
     apply List.map_congr_left
     intro c _
